@@ -594,7 +594,7 @@ def generate(rng, tier):
         ex += cases_for_context(rng, ctx, cols, ops=[0, 4, 5, 6, 7, 8, 10], origin='exhaustive')
     if tier == 'thorough':
         cases += ex
-        n_ctx, n_hist, rows = 2400, 700, 9
+        n_ctx, n_hist, rows = 2000, 600, 9
     else:
         cases += rng.sample(ex, 300)
         n_ctx, n_hist, rows = 190, 60, 6
